@@ -45,19 +45,41 @@ pub struct Report {
     pub search_rounds: u64,
     /// canonical request of the first case of (up to four) streams: re-run at the END of the run as a purity probe
     pub first_ids: Vec<String>,
+    /// canonical request of the case that is running (for failures reported outside the stream's own code)
+    pub last_request: String,
 }
 
+/// OUT-BUFFER PROBE.  Several entry points write their result into a caller-supplied buffer and overwrite it completely.
+/// A stream helper runs such a call a second time with the buffer pre-filled (0xff / 0xa5) and reports here when the two
+/// runs, both successful, leave different bytes: the result would then depend on what the buffer held before the call.
+/// Model-independent; attributed to the case that was running (`Report::case` drains the list).
+static OUTBUF_DEP: std::sync::Mutex<Vec<String>> = std::sync::Mutex::new(Vec::new());
+pub fn outbuf_dependence(what: &str) { if let Ok(mut v) = OUTBUF_DEP.lock() { if v.len() < 64 { v.push(what.to_string()); } } }
+/// fill pattern for the second run, chosen by the call's own randomness so that a replay takes the same one
+pub fn dirty_fill(tape: &[u8]) -> u8 { if tape.first().map_or(0, |b| b & 1) == 0 { 0xff } else { 0xa5 } }
+
 impl Report {
+    /// report what the out-buffer probe saw since the last call (attributed to `last_request`)
+    pub fn drain_outbuf(&mut self) {
+        let v: Vec<String> = match OUTBUF_DEP.lock() { Ok(mut g) => g.drain(..).collect(), Err(_) => vec![] };
+        for what in v {
+            let req = self.last_request.clone();
+            self.pred_fail(Failure { stream: "out-buffer-probe".into(), index: self.evaluations, request: if req.is_empty() { vec![] } else { vec![req] }, impl_out: "bytes differ between a zeroed and a pre-filled output buffer".into(),
+                model_out: "identical".into(), key: format!("purity:out-buffer:{what}"), what: format!("{what}: the result written to the caller's buffer depends on what the buffer held before the call") });
+        }
+    }
     pub fn new(property: &str, tier: &str, seed: u64, rule: &str) -> Report {
         Report {
             property: property.into(), tier: tier.into(), seed, evaluations: 0, rule: rule.into(),
             distinct: HashSet::new(), streams: BTreeMap::new(), histogram: BTreeMap::new(), samples: vec![],
             divergences: vec![], n_divergences: 0, pred_failures: vec![], n_pred_failures: 0,
-            exhaustive: vec![], notes: vec![], search_rounds: 0, first_ids: vec![],
+            exhaustive: vec![], notes: vec![], search_rounds: 0, first_ids: vec![], last_request: String::new(),
         }
     }
     /// count one executed case; `nontrivial_id` = Some(canonical text) when the case is non-trivial by `rule`
     pub fn case(&mut self, stream: &str, nontrivial_id: Option<&str>) -> u64 {
+        self.drain_outbuf();
+        if let Some(id) = nontrivial_id { self.last_request = id.to_string(); }
         self.evaluations += 1;
         let c = self.streams.entry(stream.to_string()).or_insert(0);
         *c += 1;
